@@ -96,13 +96,21 @@ def expand_module(tree, m, extra_text=""):
         src = open(os.path.join(tree, f)).read()
         it = rsrc.find_item(src, path)
         body = it.body
-        a = list(re.finditer(extract._tok_regex(mm.group(1)), body))
+        # an anchor starting with `^` is exclusive (the fragment starts after / ends before it)
+        sa, sb = mm.group(1), mm.group(2)
+        xa, xb = sa.startswith("^"), sb.startswith("^")
+        sa, sb = sa.lstrip("^"), sb.lstrip("^")
+        last_b = sb.startswith("$")      # `$text`: the LAST occurrence in the item body
+        sb = sb.lstrip("$")
+        a = list(re.finditer(extract._tok_regex(sa), body))
         if len(a) != 1:
             raise rsrc.LostAnchor("fragment %s start matched %d times" % (fid, len(a)))
-        b = [x for x in re.finditer(extract._tok_regex(mm.group(2)), body) if x.end() >= a[0].end() or mm.group(1) == mm.group(2)]
+        b = [x for x in re.finditer(extract._tok_regex(sb), body) if x.start() >= a[0].end() or (sa == sb and not xa)]
         if not b:
             raise rsrc.LostAnchor("fragment %s end not found" % fid)
-        frag = body[a[0].start():b[0].end()]
+        if last_b:
+            b = [b[-1]]
+        frag = body[(a[0].end() if xa else a[0].start()):(b[0].start() if xb else b[0].end())]
         text = text.replace("/*@@FRAGMENT:%s*/" % fid, frag)
     d = os.path.join(WORK, "kani-modules", os.path.basename(tree))
     os.makedirs(d, exist_ok=True)
